@@ -350,6 +350,22 @@ def run(rec, cfg):
         s = W9.random_shape(rng, rng.randint(9, 60), rng.choice([0.1, 0.3]))
         drive_shape(rec, s, [(1, 1)], ids=rng.choice(ID_SCHEMES))
         rec.arm("shapes:random")
+    # many large random shapes, one layout each (shape-dependent slips of the contour walk need
+    # wide subtrees receding and coming back: rare, about one tree in tens of thousands)
+    from mathy_core.layout import TreeLayout as _TL2
+
+    lay = _TL2()
+    for i in range(cfg.scale(3000, 60000)):
+        if cfg.out_of_time():
+            rec.truncated = True
+            break
+        s = W9.random_shape(rng, rng.randint(40, 140), rng.choice([0.05, 0.15, 0.3, 0.5]))
+        IDS["now"] = "fresh"
+        try:
+            lay.layout(W9.build(s, node_factory()), 1, 1)
+            rec.arm("shapes:random-large-single-layout")
+        except Exception:
+            pass
     # deep chains / zig-zags and the shapes of long parsed sums
     if cfg.shard == 2 % cfg.nshards:
         from . import _rulecommon as RC
